@@ -11,7 +11,13 @@ ITERS = "prelude/iters.rs: iterator adapters iter/rev/skip/take/cloned/map/peeka
 SMALLVEC = "prelude/smallvec.rs: SmallVec / ArrayVec are sequences; ArrayVec::push panics when full (requires) — ASSUMED"
 STD = "prelude/std.rs: assume_specification for mem::replace, Option::replace, Result::unwrap_or, usize::from(bool); cmp::min stand-in — ASSUMED"
 
+BCAST = "prelude/broadcast.rs + prelude/recv.rs: tokio::sync::broadcast — send appends to the log seen by every live receiver iff there is one; receivers get messages in FIFO order; a receiver that fell behind reports Lagged exactly once and continues with the oldest retained message; Closed is reported only after everything retained was received; a pending recv has registered the caller's waker — ASSUMED (exercised on the real tokio channel by the bounded `sub` enumeration)"
+TASK = "prelude/task.rs: Waker/Context/Poll stand-ins; Waker::clone returns an equal waker — ASSUMED"
+RBOX = "ReusableBoxRecvFuture (subscriber.rs:249-277 over reusable_box.rs) is a stand-in: `set` arms it with a receiver, `poll` completes per the channel contract — R-EXT; the unsafe code below it is checked by Kani under C20"
 UNIT_TRUST = {
+    "vector": [IMBL, ITERS, BCAST, STD, "R-LOCK: Sender::send/subscribe and broadcast_diff/subscribe take &mut self (sequential execution)", "R-PANIC: panic!(..) => { assert(state unchanged); diverge() }", "vector_map is R-EXT (element-wise, order-preserving map through the closure)"],
+    "subscriber": [IMBL, BCAST, TASK, RBOX, STD, "R-PIN: self: Pin<&mut Self> => &mut self", "R-BREAKVAL: loop-with-break-value desugared", "vstd specs for Vec, vec::IntoIter (remaining() is prophetic), Option, mem::replace, unreachable_unchecked (requires false)"],
+    "state": [TASK, "prelude/wakerlist.rs: the waker list is a sequence; drain(..) and mem::take empty it — ASSUMED", "prelude/rwlock_seq.rs (R-LOCK): std::sync::RwLock in a sequential execution: read() gives &M, write()/get_mut() give &mut M; poll_update/close take &mut self — everything about concurrent access is NOT decided", "PartialEq::ne and state::hash are deterministic functions of the values (axiom_ne, spec_hash); state::hash and state::wake are R-EXT (trusted; wake's effect on the wakers is covered by the bounded check only)", "the version counter stays below u64::MAX (requires on notifying setters)"],
     "head": [IMBL, ITERS, SMALLVEC, STD, "R-INST: S::Item instantiated to VectorDiff<T> (single-diff container) in update_limit/constructors"],
     "tail": [IMBL, ITERS, SMALLVEC, STD, "R-INST: element type instantiated to T"],
     "skip": [IMBL, ITERS, SMALLVEC, STD, "R-INST: element type instantiated to T"],
@@ -20,87 +26,79 @@ UNIT_TRUST = {
 GLUE = "the adapters' poll_next glue (closure capturing &mut: outside Verus) is decided only by the bounded enumeration, labelled bounded and not counted as proved"
 BOUNDED_NOTE = "bounded part: exhaustive small-scope enumeration on the real crates (scope printed in the evidence); it is a bounded stand-in, never counted in obligations/discharged"
 
+def P(level, units, bounded, text, note, technique, assumptions=None, fallback=None):
+    if fallback is None:
+        fallback = {u: list(bounded) for u in units}
+    return {"level": level, "units": units, "bounded": bounded, "fallback": fallback, "text": text, "note": note, "technique": technique, "assumptions": assumptions or []}
+
+VERUS = "contract-based deductive verification (Verus/Z3) of the real functions extracted by span on every run"
+BND = "bounded exhaustive enumeration on the real crates as stand-in for what Verus cannot take"
+
 PROPS = {
-    "C05": {
-        "level": "exploration", "units": [], "bounded": ["sub"], "fallback": {},
-        "text": "Bounded only so far: every short operation history (all eleven mutators, two-op transactions with every ending) on small vectors, under all poll patterns, replayed against a plain-vector model on the real crates; replica == model at every Pending.",
-        "note": "bounded stand-in, exhaustive in the stated scope; channel behaviour is tokio's",
-        "technique": "bounded exhaustive enumeration on the real crates (stand-in; contracts for vector.rs/subscriber.rs pending)",
-        "assumptions": [BOUNDED_NOTE],
-    },
-    "C06": {
-        "level": "exploration", "units": [], "bounded": ["sub"], "fallback": {},
-        "text": "Bounded only so far: capacities 1,2,3,5,16 with all poll patterns so that lag occurs; replica == vector at every Pending, every diff applicable.",
-        "note": "bounded stand-in; 'Reset only if more than capacity updates were pending' is tokio's behaviour and is not checked",
-        "technique": "bounded exhaustive enumeration on the real crates (stand-in)",
-        "assumptions": [BOUNDED_NOTE],
-    },
-    "C07": {
-        "level": "exploration", "units": [], "bounded": ["sub"], "fallback": {},
-        "text": "Bounded only so far: two-op transactions with every ending (commit, rollback, drop, rollback then redo and commit) under all poll patterns; contents and received diffs as if abandoned ops never happened; batched subscriber sees only top-level states; never an empty batch.",
-        "note": "bounded stand-in, exhaustive in the stated scope",
-        "technique": "bounded exhaustive enumeration on the real crates (stand-in)",
-        "assumptions": [BOUNDED_NOTE],
-    },
-    "C08": {
-        "level": "exploration", "units": [], "bounded": ["sub"], "fallback": {},
-        "text": "Bounded only so far: every enumerated history ends with dropping the vector, with and without a poll in between, lagged or not; the stream must deliver what is pending, end, and the replica must equal the final contents; pending streams must be woken by the drop.",
-        "note": "bounded stand-in, exhaustive in the stated scope",
-        "technique": "bounded exhaustive enumeration on the real crates (stand-in)",
-        "assumptions": [BOUNDED_NOTE],
-    },
-    "C09": {
-        "level": "proof", "units": ["head", "tail", "skip"], "bounded": ["hts"],
-        "fallback": {"head": ["hts"], "tail": ["hts"], "skip": ["hts"]},
-        "text": "Verus discharges, for all element types, lengths, limits and indices, one obligation per (function, diff variant): handle_diff of Head/Tail/Skip turns an emittable source diff into diffs that are applicable to the old view and rebuild exactly the new view; update_limit/update_count rebuild the view under the new parameter; constructors return the initial view. The poll_next glue is bounded.",
-        "note": "prelude stand-ins for imbl/SmallVec/ArrayVec/iterators are assumed contracts; " + GLUE + "; F6 (tail limit decrease from beyond the length) is a known finding",
-        "technique": "contract-based deductive verification (Verus) of the extracted real functions; bounded enumeration for the glue",
-        "assumptions": [GLUE],
-    },
-    "C10": {
-        "level": "exploration", "units": [], "bounded": ["filter"], "fallback": {},
-        "text": "Bounded only (filter.rs mutates its index table from inside closures, which Verus rejects): all 8 pass/fail tables x all short histories x both flavours; rebuilt view == filter_map(source) at every Pending, every diff applicable, stream ends with the source.",
-        "note": "bounded stand-in, exhaustive in the stated scope; nothing is counted as proved",
-        "technique": "bounded exhaustive enumeration on the real crates (Verus cannot take filter.rs: closures capturing &mut)",
-        "assumptions": [BOUNDED_NOTE],
-    },
-    "C11": {
-        "level": "exploration", "units": [], "bounded": ["sort"], "fallback": {},
-        "text": "Bounded only (sort.rs: closures capturing &mut, binary_search_by with caller comparator): three flavours x key tables with ties x all short histories; rebuilt view is a permutation of the source ordered by the comparison at every Pending.",
-        "note": "bounded stand-in, exhaustive in the stated scope; F4 (Truncate arm) is a known finding pinned by existing tests",
-        "technique": "bounded exhaustive enumeration on the real crates (Verus cannot take sort.rs)",
-        "assumptions": [BOUNDED_NOTE],
-    },
-    "C12": {
-        "level": "proof", "units": ["head", "tail", "skip"], "bounded": ["chains"],
-        "fallback": {"head": ["chains"], "tail": ["chains"], "skip": ["chains"]},
-        "text": "Verus proves the hand-over functions: into_parts of Head/Tail/Skip returns the current view (not the internal copy), and every diff a stage emits is emittable on the view rebuilt so far (what the next stage's precondition asks for). Chains of 2 and 3 adapters with taps are bounded.",
-        "note": "stand-ins assumed; chains are bounded; F6 known",
-        "technique": "contract-based deductive verification (Verus) of into_parts and the emittable clauses; bounded enumeration of chains",
-        "assumptions": [GLUE],
-    },
-    "C13": {
-        "level": "exploration", "units": [], "bounded": ["hts", "filter", "sort", "chains"], "fallback": {},
-        "text": "Bounded so far: on batched subscribers, after every emitted batch the rebuilt view is the adapter's view of a top-level source state; no empty batch.",
-        "note": "bounded stand-in; container contracts (ops.rs) pending",
-        "technique": "bounded exhaustive enumeration on the real crates (stand-in)",
-        "assumptions": [BOUNDED_NOTE],
-    },
-    "C14": {
-        "level": "exploration", "units": [], "bounded": ["sub", "hts", "filter", "sort", "chains"], "fallback": {},
-        "text": "Bounded so far: flag waker checked around every single operation (source update, parameter change, source drop, parameter stream closed): a stream never becomes ready without the Pending poll's waker having fired, and never sleeps on a stale view.",
-        "note": "bounded stand-in, single-threaded",
-        "technique": "bounded exhaustive enumeration on the real crates (stand-in)",
-        "assumptions": [BOUNDED_NOTE],
-    },
-    "C15": {
-        "level": "proof", "units": ["head", "tail"], "bounded": ["hts"],
-        "fallback": {"head": ["hts"], "tail": ["hts"]},
-        "text": "Verus proves per diff variant that every prefix of the diffs handle_diff emits keeps the Head/Tail view within the limit (prefixes_bounded, proved equivalent to the for-all-prefixes statement), and that the constructors' initial values respect the bound. The glue is bounded (length checked after every single diff).",
-        "note": "stand-ins assumed; " + GLUE,
-        "technique": "contract-based deductive verification (Verus); bounded enumeration for the glue",
-        "assumptions": [GLUE],
-    },
+    "C01": P("proof", ["state"], [],
+        "Verus discharges the contracts of every function of state.rs: poll_update is ready exactly when version==0 or observed<version, marks the value observed, otherwise stays pending and changes nothing else; set/update always bump the version by one and store the value; set_if_not_eq / set_if_hash_not_eq store+notify+return Some(previous) exactly when ne / hashes differ and otherwise leave the whole state identical; update_if bumps exactly when the closure returned true.",
+        "sequential (R-LOCK); handle layer (subscriber.rs/unique.rs/shared.rs wrappers) not yet under contract in this round; PartialEq::ne / hash deterministic; version < u64::MAX",
+        VERUS, ["the wrappers in subscriber.rs / unique.rs / shared.rs that forward to state.rs are not yet under contract"]),
+    "C02": P("proof", ["state"], [],
+        "Sequential obligations only: poll_update returning Pending has pushed a clone of the caller's waker onto the waker list (and only then); every notifying setter and close leave the waker list empty, and the list stand-in can only be emptied through drain(..)/mem::take whose results the code hands to wake().",
+        "NO thread schedules (R-LOCK erases them); `wake` itself is R-EXT (its loop over the drained wakers is not verified)",
+        VERUS, ["thread interleavings are not decided", "state::wake is trusted (R-EXT)"]),
+    "C03": P("proof", ["state"], [],
+        "Sequential: poll_update yields None iff version==0; close sets version 0; notifying setters keep an open state open (version>=1 stays >=1).",
+        "sequential; Drop of Observable/SharedObservable, upgrade/downgrade and into_shared not yet under contract in this round; concurrent last drops not decided",
+        VERUS, ["handle layer (shared.rs/unique.rs Drop, upgrade) not yet under contract", "concurrent last drops are not decided"]),
+    "C05": P("proof", ["vector", "subscriber"], ["sub"],
+        "Verus proves: each of the eleven mutators changes the contents like a plain vector and, iff a receiver exists, appends exactly one message carrying exactly the matching diff (emittable on the old contents, producing the new contents) and the new state; documented no-ops change nothing; subscribe snapshots values and a receiver positioned at the end of the log. Both subscriber streams deliver the queued diffs in FIFO order (unbatched: head of the backlog, rest stays queued; batched: the concatenation of all queued messages).",
+        "channel FIFO is tokio's (assumed, exercised by the bounded runs); transaction/entry units pending; R-LOCK sequential",
+        VERUS + "; " + BND, [BOUNDED_NOTE]),
+    "C06": P("proof", ["subscriber", "vector"], ["sub"],
+        "Verus proves (relative to the assumed channel contract): a lagged receiver gets exactly Reset{state of the newest retained message} and its queue is drained (handle_lag loop invariant), the `unreachable!` after a lag is unreachable, every message carries the state after it (broadcast_diff), each batched item leaves the queue empty.",
+        "'Reset only if more than capacity updates were pending' and retention are tokio's behaviour (assumed)",
+        VERUS + "; " + BND, [BOUNDED_NOTE]),
+    "C07": P("proof", ["subscriber"], ["sub"],
+        "So far: Verus proves the batched stream yields whole messages, never an empty batch (given the message invariant), and never splits one; the transaction functions are bounded in this round (every ending of 1-4-op transactions under all poll patterns).",
+        "transaction.rs contracts pending: commit/rollback/drop are bounded only",
+        VERUS + " (stream side); " + BND + " (transaction side)", [BOUNDED_NOTE]),
+    "C08": P("proof", ["subscriber"], ["sub"],
+        "Verus proves: both streams return None only if the channel is closed, the receiver did not lag and nothing is queued; closed with a non-empty queue still delivers; handle_lag on a closed channel returns the final state (the repaired F1).",
+        "wake-on-drop is tokio's Sender::drop (bounded check with a flag waker)",
+        VERUS + "; " + BND, [BOUNDED_NOTE]),
+    "C09": P("proof", ["head", "tail", "skip"], ["hts"],
+        "Verus discharges, for all element types, lengths, limits and indices, one obligation per (function, diff variant): handle_diff of Head/Tail/Skip turns an emittable source diff into diffs that are applicable to the old view and rebuild exactly the new view; update_limit/update_count rebuild the view under the new parameter; constructors return the initial view. The poll_next glue is bounded.",
+        "prelude stand-ins for imbl/SmallVec/ArrayVec/iterators are assumed contracts; " + GLUE + "; F6 (tail limit decrease from beyond the length) is a known finding",
+        VERUS + "; " + BND + " (poll_next glue)", [GLUE]),
+    "C10": P("exploration", [], ["filter"],
+        "Bounded only (filter.rs mutates its index table from inside closures, which Verus rejects): all 8 pass/fail tables x all short histories x both flavours; rebuilt view == filter_map(source) at every Pending, every diff applicable, stream ends with the source.",
+        "bounded stand-in, exhaustive in the stated scope; nothing is counted as proved",
+        BND + " (Verus cannot take filter.rs: closures capturing &mut)", [BOUNDED_NOTE]),
+    "C11": P("exploration", [], ["sort"],
+        "Bounded only (sort.rs: closures capturing &mut, binary_search_by with caller comparator): three flavours x key tables with ties x all short histories; rebuilt view is a permutation of the source ordered by the comparison at every Pending.",
+        "bounded stand-in, exhaustive in the stated scope; F4 (Truncate arm) is a known finding pinned by existing tests",
+        BND + " (Verus cannot take sort.rs)", [BOUNDED_NOTE]),
+    "C12": P("proof", ["head", "tail", "skip", "subscriber"], ["chains"],
+        "Verus proves the hand-over functions: into_parts of Head/Tail/Skip returns the current view (not the internal copy), VectorSubscriber::into_values_and_*stream return snapshot + stream, and every diff a stage emits is emittable on the view rebuilt so far (what the next stage's precondition asks for). Chains of 2 and 3 adapters with taps are bounded.",
+        "stand-ins assumed; chains are bounded; F6 known",
+        VERUS + " (hand-over functions); " + BND + " (chains)", [GLUE]),
+    "C13": P("proof", ["subscriber", "tail", "skip"], ["hts", "filter", "sort", "chains"],
+        "So far: Verus proves the batched subscriber stream yields whole messages and never an empty batch, and that update_limit/update_count of Tail/Skip never return an empty batch. The containers of ops.rs and the adapters are bounded: after every emitted batch the rebuilt view is the adapter's view of a top-level source state.",
+        "ops.rs container contracts pending; adapters bounded",
+        VERUS + " (batched subscriber, update_*); " + BND, [BOUNDED_NOTE]),
+    "C14": P("proof", ["subscriber"], ["sub", "hts", "filter", "sort", "chains"],
+        "Verus proves for both subscriber streams: every return path re-arms the receive future (struct invariant `wf`), and Pending is returned only as the result of polling the armed future with the caller's context, which (channel contract) registered that waker. Adapters are bounded: flag waker checked around every single operation.",
+        "waker registration by a pending recv is tokio's (assumed); adapters bounded, single-threaded",
+        VERUS + " (subscriber streams); " + BND + " (adapters)", [BOUNDED_NOTE]),
+    "C15": P("proof", ["head", "tail"], ["hts"],
+        "Verus proves per diff variant that every prefix of the diffs handle_diff emits keeps the Head/Tail view within the limit (prefixes_bounded, proved equivalent to the for-all-prefixes statement), and that the constructors' initial values respect the bound. The glue is bounded (length checked after every single diff).",
+        "stand-ins assumed; " + GLUE,
+        VERUS + "; " + BND + " (glue)", [GLUE]),
+    "C17": P("proof", ["vector"], [],
+        "So far: Verus proves for the eleven ObservableVector mutators the plain-vector result and return value, and (R-PANIC) that at every panic site nothing has been changed or sent, and that a normal return implies the index was in range. Transaction mutators and entry traversal pending.",
+        "transaction.rs / entry.rs contracts pending in this round",
+        VERUS, ["transaction and entry functions are not yet under contract"]),
+    "C18": P("proof", ["vector"], [],
+        "Verus proves apply(d, vec) performs the spec change for every variant whenever insert/set/remove are in range (no other stand-in precondition, i.e. no other panic, is reachable), map rebuilds each variant with the closure applied to every contained value (vector_map trusted), and the lemma: for a pure mapping, apply(map(d), map(s)) == map(apply(d, s)); identity mapping gives an equal diff.",
+        "vector_map (into_iter().map().collect()) is R-EXT; imbl panics are the stand-in's preconditions",
+        VERUS, ["vector_map is trusted (R-EXT)"]),
 }
 
 NOT_APPLICABLE = {
@@ -108,12 +106,7 @@ NOT_APPLICABLE = {
 }
 # properties whose check is not built yet in this round (kept out of `checks`, listed with the reason)
 PENDING = {
-    "C01": "contract units for state.rs / subscriber.rs not built yet in this round",
-    "C02": "contract units for state.rs not built yet in this round",
-    "C03": "contract units for shared.rs / unique.rs not built yet in this round",
     "C16": "async-lock units not built yet in this round",
-    "C17": "vector/entry units not built yet in this round",
-    "C18": "VectorDiff::map/apply unit not built yet in this round",
     "C19": "handle-count unit not built yet in this round",
     "C20": "Kani harnesses not built yet in this round",
 }
